@@ -324,6 +324,9 @@ def targeted_ops(rng, schema, env):
                 return [k, gen.one_value(rng, vf, want, env)]
 
             start = dict((str(k), v) if kf is None else (k, v) for k, v in (kv("valid") for _ in range(2)) if k is not None)
+            if rng.random() < 0.5:
+                # the field holds no map at all when an entry is addressed through a dotted path
+                ops.append({"op": "set", "route": "attr", "path": path, "value": None, "emptied_before_dotted_entry": True})
             for _ in range(2):
                 k, bad = kv("invalid")
                 if isinstance(k, str) and k and "." not in k:
